@@ -168,7 +168,10 @@ def alphabets(tier):
     if th:
         a["map"] = _dedup(maps_over([S("a"), S("b"), S("c")], mv, _rot_orders) + maps_over([I(1), I(2), I(3)], mv, _rot_orders))
     else:
-        a["map"] = _dedup(maps_over([S("a"), S("b")], mv, _two_orders) + maps_over([I(1), I(2)], mv, _two_orders))
+        a["map"] = _dedup(maps_over([S("a"), S("b")], mv, _two_orders) + maps_over([I(1), I(2)], mv, _two_orders)
+                          # three keys, written in two orders: two value pairs without an == overload beside one that differs
+                          + [M((S("a"), I(1)), (S("b"), I(1)), (S("c"), I(1))), M((S("b"), L(I(1))), (S("c"), L(I(1))), (S("a"), I(2))),
+                             M((S("a"), I(2)), (S("b"), L(I(1))), (S("c"), L(I(1))))])
     return a
 
 
